@@ -28,8 +28,12 @@ def ev_coq(ev):
         return "EExitKbd %s" % ct.z(ev[1])
     if k == "timer":
         return "ETimer"
-    if k == "exc":
+    if k in ("exc", "exc_base"):
         return "EExc %s XOther" % WHO[ev[1]]
+    if k == "in":
+        return "EChunk WIn"
+    if k == "in_eof":
+        return "EEof WIn"
     if k == "werr":
         return "EExc %s XWatcher" % WHO[ev[1]]
     if k == "kbd":
@@ -103,7 +107,7 @@ def death_while_running(case):
             return None
         if e[0] in ("out", "err") and not e[1]:
             done.add(e[0])
-        if e[0] in ("exc", "werr") and e[1] in workers(case) and e[1] not in done:
+        if e[0] in ("exc", "werr", "exc_base") and e[1] in workers(case) and e[1] not in done:
             return (e[1], e[0])
     return None
 
@@ -118,7 +122,7 @@ def first_of(case):
 
 
 def has_exc(case):
-    return any(e[0] in ("exc", "werr") for e in case["events"])
+    return any(e[0] in ("exc", "werr", "exc_base") for e in case["events"])
 
 
 def has_kbd(case):
@@ -171,7 +175,7 @@ def gen_case(rng, focus=None):
     if rng.random() < (0.3 if focus != "timeout" else 0.1):
         for _ in range(rng.choice([1, 1, 2])):
             w = rng.choice(["out", "out", "err", "in"])
-            d = [rng.choice(["exc", "exc", "werr"]), w]
+            d = [rng.choice(["exc", "exc", "werr", "exc_base"]), w]
             disruptive.append(d)
             evs.insert(rng.randrange(len(evs) + 1), d)
     if rng.random() < 0.15:
@@ -182,9 +186,21 @@ def gen_case(rng, focus=None):
     if ins_d:
         for d in ins_d:
             evs.remove(d)
-        first = next((i for i, e in enumerate(evs) if e[0] in ("exit", "exit_kbd", "timer", "exc", "werr")),
+        first = next((i for i, e in enumerate(evs) if e[0] in ("exit", "exit_kbd", "timer", "exc", "werr",
+                                                               "exc_base")),
                      len(evs))
         evs.insert(rng.randrange(first + 1), ins_d[0])
+    if ins and rng.random() < 0.6:
+        first = next((i for i, e in enumerate(evs) if e[0] in ("exit", "exit_kbd", "timer", "exc", "werr",
+                                                               "exc_base")), len(evs))
+        units = [["in", rng.choice(["a", "b", "\n"])] for _ in range(rng.randint(1, 3))]
+        if rng.random() < 0.5:
+            units.append(["in_eof"])
+        for u in units:
+            pos = rng.randrange(first + 1)
+            # keep the units in order: insert each one at or after the previous
+            evs.insert(first, u)
+            first += 1
     case["events"] = evs
     ends = process_ends(case)
     if not ends:
@@ -193,6 +209,13 @@ def gen_case(rng, focus=None):
     else:
         case["never_eof"] = [w for w in ("out", "err") if w in workers(case) and rng.random() < 0.1]
     return case
+
+
+def small_sample(rng, k):
+    """a capped random slice of the small-scope enumeration (quick tier)"""
+    cs = list(small_cases("quick"))
+    rng.shuffle(cs)
+    return cs[:k]
 
 
 def small_cases(tier):
